@@ -90,9 +90,12 @@ def gen_pv_case(rng, t, inp, cut_prob=0.5, paint_prob=0.6):
     return pt, pieces, l1 | l2
 
 
-def gen_hostile(rng, t, inp):
+HOSTILE_MODES = ["perturb", "perturb", "arbitrary", "dropdup", "overlap", "tagnoise", "holes", "holes"]
+
+
+def gen_hostile(rng, t, inp, mode=None):
     """Pretext rows that PretextView could not have produced."""
-    mode = rng.choice(["perturb", "perturb", "arbitrary", "dropdup", "overlap", "tagnoise"])
+    mode = mode or rng.choice(HOSTILE_MODES)
     labels = {f"hostile:{mode}"}
     pieces, _ = gen_pieces(rng, inp, t, cut_prob=rng.choice([0.3, 0.8]))
     pert_k = rng.choice([0.3, 1, 3])
@@ -107,8 +110,25 @@ def gen_hostile(rng, t, inp):
             b = rng.randint(a, min(a + rng.choice([0, 1, int(t), int(5 * t), L]), L + int(3 * t)))
             baits.append((s[0], a, b))
     else:
-        for pc in pieces:
+        # perturb only a few pieces in most cases, so that the rest of the map stays honourable
+        nper = rng.choice([1, 1, 2, 3, len(pieces)])
+        chosen = set(rng.sample(range(len(pieces)), min(nper, len(pieces))))
+        if mode == "holes":
+            # a hole is made at a boundary between two consecutive pieces of one scaffold
+            inner = [i for i, pc in enumerate(pieces) if pc["a"] > 0]
+            chosen = set(rng.sample(inner, min(len(inner), rng.choice([1, 1, 2])))) if inner else set()
+        for ip, pc in enumerate(pieces):
             sn, st, en = pc["s"], pc["start"], pc["end"]
+            if mode == "holes":
+                d1 = rng.randint(0, max(1, int(t) - 1)) if ip in chosen else 0
+                nxt = pieces[ip + 1] if ip + 1 < len(pieces) else None
+                d2 = -rng.randint(0, max(1, int(t) - 1)) if (nxt is not None and (ip + 1) in chosen and nxt["s"] == sn) else 0
+                st2 = max(1, st + d1)
+                baits.append((sn, st2, max(st2, en + d2)))
+                continue
+            if ip not in chosen and mode in ("perturb", "overlap"):
+                baits.append((sn, st, en))
+                continue
             if mode == "dropdup":
                 r = rng.random()
                 if r < 0.2:
